@@ -20,7 +20,7 @@ RULE = ('cells = (column wavelet, row wavelet, mode, J, HxW) with ordered pairs 
 ASSUMPTIONS = ['pywt.wavedec2/waverec2 with a per-axis wavelet tuple is the specification', 'float64']
 TIMEOUT = {'quick': 900, 'thorough': 3000}
 WORKER_BUDGET = {'quick': 600, 'thorough': 2400}
-MIN_HELD = {'quick': 300, 'thorough': 1500}
+MIN_HELD = {'quick': 300, 'thorough': 265489}
 SHAPES = [(8, 12), (9, 16), (16, 10), (13, 7), (6, 11), (12, 5), (7, 8)]
 
 
